@@ -420,11 +420,20 @@ def run(tier: str) -> int:
     fresh_repo_imports()
     ck = Check(PID, tier)
     rnd = random.Random(seed())
-    rc, rwi, rwe = _tlc([
-        ("Macros", f"cfg/Macros_{tier}.cfg", dict(workers=1, timeout=1500, coverage=True)),
-        ("MacrosWith", f"cfg/MacrosWith_{tier}_inv.cfg", dict(workers=4 if tier == "quick" else 8, timeout=1500, coverage=True)),
-        ("MacrosWith", f"cfg/MacrosWith_{tier}_emit.cfg", dict(workers=1, timeout=1500)),
-    ], parallel=3)
+    tlc_jobs = [
+        ("Macros", f"cfg/Macros_{tier}.cfg", dict(workers=1, timeout=2400, coverage=True)),
+        ("MacrosWith", f"cfg/MacrosWith_{tier}_inv.cfg", dict(workers=4 if tier == "quick" else 8, timeout=2400, coverage=True)),
+        ("MacrosWith", f"cfg/MacrosWith_{tier}_emit.cfg", dict(workers=1, timeout=2400)),
+    ]
+    if tier == "thorough":      # the thorough emit family restricts the argument sources; the quick one (self references) is replayed as well
+        tlc_jobs.append(("MacrosWith", "cfg/MacrosWith_quick_emit.cfg", dict(workers=1, timeout=2400)))
+    rc, rwi, rwe, *more = _tlc(tlc_jobs, parallel=4)
+    for n, r in enumerate(more):
+        ck.tlc(f"MacrosWith_emit_quick_family_{n}", r)
+        if r.violated:
+            ck.fail(f"MacrosWith.tla {r.violated} violated", {"tlc": r.out[-3000:]})
+            return ck.finish()
+        rwe.emitted.extend(r.emitted)
     ck.tlc("Macros_" + tier, rc)
     ck.tlc("MacrosWith_inv_" + tier, rwi)
     ck.tlc("MacrosWith_emit_" + tier, rwe)
@@ -434,10 +443,13 @@ def run(tier: str) -> int:
             return ck.finish()
     require_covered(rc, CALL_ACTIONS)
     require_covered(rwi, WITH_ACTIONS)
+    if not rc.emitted or not rwe.emitted:
+        from ..tlcrun import MachineryError
+        raise MachineryError("a specification emitted no behaviour (vacuous run)")
 
     # ---- family A
     calls = rc.emitted
-    nvar = 2 if tier == "quick" else 4
+    nvar = 2 if tier == "quick" else 3
     if tier == "thorough" and len(calls) > 60000:
         calls = rnd.sample(calls, 60000)
     _CASES["call"] = calls
@@ -464,7 +476,7 @@ def run(tier: str) -> int:
     if tier == "thorough":
         # deeper random programs (5 with tags, depth 4, 2 assigns, both names): tlc -simulate, invariants checked on every state
         from ..tlcrun import run_tlc
-        rs = run_tlc("MacrosWith", "cfg/MacrosWith_sim.cfg", workers=4, timeout=900, simulate="num=6000", depth=20, seed=seed() + 1)
+        rs = run_tlc("MacrosWith", "cfg/MacrosWith_sim.cfg", workers=4, timeout=900, simulate="num=4000", depth=20, seed=seed() + 1)
         ck.tlc("MacrosWith_simulate", rs)
         if rs.violated:
             ck.fail(f"MacrosWith.tla {rs.violated} violated (simulation)", {"tlc": rs.out[-3000:]})
@@ -472,7 +484,7 @@ def run(tier: str) -> int:
         uniq = {json.dumps(c, sort_keys=True): c for c in rs.emitted}
         ck.cov["simulated_with_programs"] = len(uniq)
         withs = withs + [uniq[k] for k in sorted(uniq)]
-    nvar = 2 if tier == "quick" else 3
+    nvar = 2
     _CASES["with"] = withs
     jobs = [(j, (j * 13 + v * 5 + seed()) % 240) for j in range(len(withs)) for v in range(nvar)]
     res = par.pmap(_job_with, jobs, procs=_procs(), chunk=256)
@@ -500,7 +512,7 @@ def run(tier: str) -> int:
         "stack mechanism related to the lexical requirement by 6 invariants; the visible value of x and y after every instruction emitted. "
         "Each cell rendered in %d+%d syntactic variants (literal vs global vs caller-assigned argument values, quoted/bare macro names, "
         "commas, ':' vs '=' with keyword_assignment, interleaved positional/keyword order, assign vs capture, for/if wrappers, "
-        "Undefined/DebugUndefined/StrictUndefined), sync and async." % (tier, tier, 2 if tier == "quick" else 4, 2 if tier == "quick" else 3))
+        "Undefined/DebugUndefined/StrictUndefined), sync and async." % (tier, tier, 2 if tier == "quick" else 3, 2))
     ck.cov["cells"] = {"call": len(rc.emitted), "with_programs": len(rwe.emitted)}
     for c in rc.emitted[:: max(1, len(rc.emitted) // 3)][:3]:
         s, d, t, e, _ = concretize_call(c, 5)
